@@ -63,3 +63,21 @@ Proof.
   - exact Hd.
 Qed.
 Print Assumptions C12_complete_reads.
+
+(* CREATED ONLY IF: timeout.go timeoutAutoInserterConsumer, for EVERY state: in the trace of the inserter's handler every
+   TimeoutStore.Create sits directly on top of the invocation of the status's timer function on that very run which returned
+   that very (non-zero) expiry — a zero time creates nothing ([create_ok], proofs/InserterFacts.v) *)
+From WF Require Import proofs.InserterFacts.
+Theorem C12_create_only_if : forall c inst u st n e s,
+  create_ok (o_trace s) -> create_ok (o_trace (snd (step_handler c inst u st (inserter_fn st (ec_tos c) 0) n e s))).
+Proof. exact inserter_handler_ok. Qed.
+Print Assumptions C12_create_only_if.
+
+Theorem C12_create_reads : forall run st ex a top tr, create_ok (TTCreate run st ex a :: top :: tr) ->
+  exists j view pers now, top = TUser (UFTimer st j) view pers now (UTime (Some ex)) /\ r_run view = run.
+Proof.
+  intros run st ex a top tr H. inversion H as [|t tr' Hn Hr|st' j view pers now ex' a' tr' Hr]; subst.
+  - destruct Hn.
+  - eauto 8.
+Qed.
+Print Assumptions C12_create_reads.
